@@ -2,7 +2,7 @@
    Statements only (copied from the lemma libraries); every proof is a bare
    `exact`; see the cited files in coq/proofs for the proofs. *)
 From Coq Require Import List NArith ZArith Bool Arith Sorting.Sorted Sorting.Permutation.
-From D2P Require Import Str Err Package Content BulletsFacts Lifecycle LifeFacts.
+From D2P Require Import Str Err Xml TableTypes Tables Package Content Save BulletsFacts SaveFacts Lifecycle LifeFacts.
 Import ListNotations.
 
 (* for EVERY history of reads, image saves, archive saves, close and with-exits: each operation returns the value, or raises ValueError, or (close/exit) returns nothing - never anything else *)
